@@ -117,6 +117,22 @@ def check(run, model, tier):
         handed = all(any(dn is n for v, dn in vals) for p_, lab_, vals in returned_values(g, ih.params) if g.exists_path(n, p_))
         ok = bool(bound) and started and handed
         run.inst('ORDER.start', ih, 'the new thread replaces the handle', ok, 'the created thread is not started, or is not the handle that is returned', node=n.ast, obligation=True)
+    # the handle is stored as soon as the thread exists: nothing that can fail (creating the other thread) lies between creating a thread and recording it
+    gs0 = cfg_of(w.start)
+    for reg, th in sorted(w.threads.items()):
+        cn_ = [n_ for n_ in gs0.nodes if n_.kind == 'stmt' and n_.ast is th['create_stmt']]
+        sn_ = [n_ for n_ in gs0.nodes if n_.kind == 'stmt' and n_.ast is th['store_stmt']]
+        between = []
+        if cn_ and sn_ and cn_[0] is not sn_[0]:
+            for o_reg, o_th in w.threads.items():
+                on_ = [n_ for n_ in gs0.nodes if n_.kind == 'stmt' and n_.ast is o_th['create_stmt']]
+                if o_reg != reg and on_ and gs0.exists_path(cn_[0], on_[0]) and gs0.exists_path(on_[0], sn_[0]):
+                    between.append(o_th['handle'])
+        ok = bool(cn_) and bool(sn_) and not between
+        run.inst('ORDER.start', w.start, 'handle %s is recorded before anything else can fail' % th['handle'], ok,
+                 '' if ok else ('the %s thread is created and started, but its handle is stored only after the %s thread has been created too: if that second creation fails '
+                                '(RuntimeError: can\'t start new thread) the running thread is never recorded - the next start() creates a second one, stop() cannot reach the '
+                                'first, and is_alive() reports False while it delivers' % (th['handle'], ', '.join(between))), node=th['call'], obligation=True)
     for reg, th in sorted(w.threads.items()):
         c = th['call']
         ok = th['handle'] is not None and dotted(th['args'].get(hp)) == w.start.params[0] + '.' + th['handle']
